@@ -349,6 +349,22 @@ func writeEvidence(v *Verifier, vdir, prop, tier string, seed int, agg map[strin
 			break
 		}
 	}
+	// audit of assumed contracts that no call site of this run used: in the contract files of the packages
+	// whose functions were verified here, an ext / iface key that matches nothing is a contract that is
+	// silently not in force (a mistyped key)
+	{
+		files := map[string]bool{}
+		for _, c := range v.cs.Order {
+			if c.Kind == "func" && c.used {
+				files[c.File] = true
+			}
+		}
+		for _, c := range v.cs.Order {
+			if os.Getenv("GOVC_AUDIT") != "" && (c.Kind == "ext" || c.Kind == "iface") && files[c.File] && !v.usedContracts[c.Kind+" "+c.Key] {
+				fmt.Fprintf(os.Stderr, "UNUSED-ASSUMED-CONTRACT %s %s (%s)\n", c.Kind, c.Key, filepath.Base(filepath.Dir(c.File)))
+			}
+		}
+	}
 	var trusted []string
 	for _, k := range sortedKeys(v.usedModels) {
 		trusted = append(trusted, "model (assumed contract, Go-side): "+k)
